@@ -39,8 +39,10 @@ def add_body(cr):
     fn, _ = cr.fn("Quantile", "add")
     stmts = fn["body"]["stmts"]
     fors = [i for i, s in enumerate(stmts) if s["k"] == "expr" and s["e"]["k"] == "for"]
-    if len(fors) != 3 or fors[-1] != len(stmts) - 1:
-        raise Undecided("lost anchor: Quantile::add is expected to end with its third top-level `for` (marker adjustment)")
+    # anchor: the marker adjustment is the LAST top-level statement and is a `for` loop (its range 1..4 is checked by
+    # stage_adjust); how the earlier statements are written (for / while / unrolled) does not matter
+    if not fors or fors[-1] != len(stmts) - 1:
+        raise Undecided("lost anchor: Quantile::add is expected to end with the marker-adjustment `for` loop")
     return fn, stmts, fors
 
 
